@@ -253,6 +253,25 @@ def f64_eq(I, ctx, a, b):
 
 
 # ------------------------------------------------------------------ hash containers (concrete shape, symbolic keys)
+def key_eq(I, ctx, a, b):
+    """equality of hash-container keys: the key type's own PartialEq (Symbol compares ids, Source compares file ids), structural otherwise"""
+    a, b = deref(a), deref(b)
+    if isinstance(a, Agg) and isinstance(b, Agg):
+        if a.name in ('tuple', 'Option') and a.name == b.name:
+            if a.vidx != b.vidx or len(a.fields) != len(b.fields): return False
+            r = True
+            for x, y in zip(a.fields, b.fields):
+                r = b_and(r, key_eq(I, ctx, x, y))
+                if r is False: return False
+            return r
+        if a.name == b.name and a.name not in ('f64',):
+            crate = getattr(ctx, 'cur_crate', None) or I.default_crate
+            tgt = I.resolve_static(crate, f'<{a.name} as PartialEq>::eq')
+            if tgt is not None and tgt[0] == 'fn':
+                return I.call_fn(ctx, tgt[1], [ValRef(a), ValRef(b)])
+    return values_eq(I, ctx, a, b)
+
+
 class HMap:
     """FnvHashMap / HashMap: insertion-ordered association list; key comparison may fork"""
     def __init__(self): self.keys, self.vals = [], []
@@ -261,7 +280,7 @@ class HMap:
         i = [id(x) for x in self.keys].index(id(k)); return ElemRef(self.vals, i)
     def find(self, I, ctx, k):
         for i, k2 in enumerate(self.keys):
-            if ctx.branch(values_eq(I, ctx, k, k2)): return i
+            if ctx.branch(key_eq(I, ctx, k, k2)): return i
         return None
 
 
@@ -269,7 +288,7 @@ class HSet:
     def __init__(self): self.items = []
     def find(self, I, ctx, k):
         for i, k2 in enumerate(self.items):
-            if ctx.branch(values_eq(I, ctx, k, k2)): return i
+            if ctx.branch(key_eq(I, ctx, k, k2)): return i
         return None
 
 
